@@ -285,6 +285,10 @@ let run_case (x : sx) : Stdlib.String.t =
                 let srend = if sr = [] then "fail" else "ok:[" ^ Stdlib.String.concat "," (List.map render_res sr) ^ "]" in
                 let mrend = match o with OOk _ -> r | OErr _ -> "fail" | OPanic _ -> r in
                 if srend <> mrend then Buffer.add_string b (Printf.sprintf "\tS%d=%s" i srend));
+               (if filters_call_free t && (match o with OPanic _ -> false | _ -> true) then
+                  let sc = spec_calls regex_match t doc in
+                  if sc <> st'.calls then
+                    Buffer.add_string b (Printf.sprintf "\tS%d=calls:%s" i (Stdlib.String.concat ";" (List.map render_call sc))));
                Buffer.add_string b (Printf.sprintf "\tC%d=%s" i (Stdlib.String.concat ";" (List.map render_call st'.calls)));
                (match o with
                 | OOk rs when cfg.cfg_accessor ->
